@@ -2,5 +2,5 @@
 # extracts the model and builds the model runner; run from /verif/ocaml
 set -e
 cd "$(dirname "$0")"
-timeout 600 coqc -Q ../coq PGT ../coq/Extract.v >/dev/null
-timeout 600 ocamlfind ocamlopt -O2 -w -a -package str model.mli model.ml modelrun.ml -o ../bin/modelrun 2>/dev/null || timeout 600 ocamlfind ocamlopt -w -a model.mli model.ml modelrun.ml -o ../bin/modelrun
+timeout 600 coqc -Q ${PGT_COQ:-../coq} PGT ${PGT_COQ:-../coq}/Extract.v >/dev/null
+timeout 600 ocamlfind ocamlopt -O2 -w -a -package str model.mli model.ml modelrun.ml -o ${PGT_BIN:-../bin}/modelrun 2>/dev/null || timeout 600 ocamlfind ocamlopt -w -a model.mli model.ml modelrun.ml -o ${PGT_BIN:-../bin}/modelrun
